@@ -13,7 +13,7 @@ import (
 
 // Fixed regression worlds: one per conforming variation named in the property / defect shape of
 // DESIGN.md section 7. Part of both tiers.
-var fixedNames = []string{"two-offset-accepts", "offset-then-letters", "all-accept-forms", "all-reject-forms", "all-defer-forms", "title-from-long-subject", "latin1-subject", "early-fq", "dup-mid", "dup-mid-second", "dup-mid-second-batched", "dup-mid-third-batched", "six-messages-order", "twenty-mixed-precedence", "sixteen-one-flash", "lib-master-motd", "gzip"}
+var fixedNames = []string{"two-offset-accepts", "offset-then-letters", "all-accept-forms", "all-reject-forms", "all-defer-forms", "title-from-long-subject", "latin1-subject", "early-fq", "dup-mid", "dup-mid-second", "dup-mid-second-batched", "dup-mid-third-batched", "six-messages-order", "precedence-in-encoded-subjects", "twenty-mixed-precedence", "sixteen-one-flash", "lib-master-motd", "gzip"}
 
 func fixedWorld(name string) (*b2fx.PeerWorld, error) {
 	w := b2fx.BaseWorld("fixed-"+name, false)
@@ -71,6 +71,14 @@ func fixedWorld(name string) (*b2fx.PeerWorld, error) {
 		add(w.AddPeer("DUPB", "dup b", body(20, 'b'), fbb.Reject))
 		add(w.AddPeer("DUPC", "dup c", body(30, 'c'), fbb.Accept))
 		add(w.AddPeer("DUPD", "dup d", body(40, 'd'), fbb.Defer))
+	case "precedence-in-encoded-subjects":
+		// precedence markers in subjects that are word-encoded on the wire (non-ASCII characters), next to smaller routine traffic
+		add(w.AddLib("PENC1", "routine small", body(3, 'a'), "+"))
+		add(w.AddLib("PENC2", "=?ISO-8859-1?q?//WL2K_Z/_fl=E5sh?=", body(700, 'b'), "+"))
+		add(w.AddLib("PENC3", "=?ISO-8859-1?q?//WL2K_P/_pr=F8ve?=", body(400, 'c'), "+"))
+		add(w.AddLib("PENC4", "=?ISO-8859-1?q?//WL2K_O/_=F8yeblikkelig?=", body(500, 'd'), "+"))
+		add(w.AddLib("PENC5", "routine medium", body(100, 'e'), "+"))
+		add(w.AddLib("PENC6", "//WL2K P/ ascii priority", body(900, 'f'), "+"))
 	case "six-messages-order":
 		add(w.AddLib("ORD1", "routine big", body(400, 'a'), "+"))
 		add(w.AddLib("ORD2", "routine small", body(3, 'b'), "+"))
